@@ -146,6 +146,23 @@ fn c04_diff<'a, T: DiffableStr + ?Sized>(
     for ch in &all {
         count += 1;
         let v = ch.value().as_bytes();
+        // the other views of the same value
+        {
+            let by_ref: &[u8] = (*ch.value_ref()).as_bytes();
+            let mut c2 = ch.clone();
+            let by_mut: Vec<u8> = (*c2.value_mut()).as_bytes().to_vec();
+            if by_ref.as_ptr() != v.as_ptr() || by_ref.len() != v.len() || by_mut != v {
+                return Err("value_ref() / value_mut() of a change differ from value()".into());
+            }
+            if ch.as_str() != std::str::from_utf8(v).ok() || ch.to_string_lossy() != String::from_utf8_lossy(v) {
+                return Err(format!(
+                    "as_str() / to_string_lossy() of a change ({:?} / {:?}) are not its value {}",
+                    ch.as_str(),
+                    ch.to_string_lossy(),
+                    lossy(v)
+                ));
+            }
+        }
         fp.add(ch.tag() as u64 + 4 * v.len() as u64);
         match ch.tag() {
             ChangeTag::Equal => {
